@@ -710,6 +710,17 @@ Theorem C15_parse_trim_iff : forall (s t : str),
 Proof. exact trim_space_some_iff. Qed.
 Print Assumptions C15_parse_trim_iff.
 
+(* ... and in one equation, with the boundary of the modelled domain: [strip_ws s] is s without its leading and
+   trailing ASCII white space; TrimSpace returns it unless it begins or ends with a byte >= 0x80 - exactly then the
+   real function decodes runes (unicode.IsSpace) and the model answers None (PUnmodelled) *)
+Theorem C15_parse_trim_domain : forall s : str,
+  trim_space s = match strip_ws s with
+                 | [] => Some []
+                 | c :: r => if non_ascii c || non_ascii (last r c) then None else Some (c :: r)
+                 end.
+Proof. exact trim_space_strip. Qed.
+Print Assumptions C15_parse_trim_domain.
+
 (* the rejected lines, by error: errInvalidAuditHeader - no "msg=", or the first one before index 6, or the type
    is fine and the trimmed text has no well-formed header; errInvalidAuditMessageTypName - the type position holds
    no type name *)
